@@ -1,5 +1,6 @@
 (* C19 — a decision table with rules as rows and ONE, TWO or THREE header lines drawn as box text with merged cells.
    (owner: ext-merged; the merged drawings are in coq/C19/CanvasMerged.v, the regular one-header-line tables in coq/C19/CanvasDraw.v)
+   Input entries of consecutive rules can be merged into one cell (ht_merge).
    Header lines: [output label line over all output columns - only with several outputs] / the line of the input expressions and
    component names (with one output: its label) / [allowed values line].  The hit-policy cell and the annotation names span all header
    lines, an input expression spans the label line and the name line, the output label spans the output columns.  Every text is a block
@@ -20,7 +21,8 @@ Record htable := {
   ht_outs : list (block * block);          (* component name (with one output: the output label), output values (drawn when ht_values) *)
   ht_anns : list block;                    (* annotation names *)
   ht_values : bool;                        (* the allowed-values line is drawn *)
-  ht_rules : list (block * list block * list block * list block) }.    (* number cell, input / output / annotation entries *)
+  ht_rules : list (block * list block * list block * list block);      (* number cell, input / output / annotation entries *)
+  ht_merge : list (nat * nat * nat) }.     (* merged input entries (rules as rows): input index, first rule, last rule; every rule of the group holds the block of the merged cell *)
 
 Section Drawing.
 Variable s : htable.
@@ -36,8 +38,13 @@ Definition c_out : nat := 1 + h_ni.
 Definition c_ann : nat := 1 + h_ni + h_no.
 
 (* the merged cell of grid cell (i, j) *)
+Definition merge_of (q r : nat) : option (nat * nat * nat) :=
+  find (fun g => let '(q', a, b) := g in (q' =? q) && (a <=? r) && (r <=? b)) (ht_merge s).
 Definition hreg (i j : nat) : creg :=
-  if h_hdr <=? i then (i, j, S i, S j)
+  if h_hdr <=? i then
+    (if (1 <=? j) && (j <? c_out) then
+       match merge_of (j - 1) (i - h_hdr) with Some (_, a, b) => (h_hdr + a, j, S (h_hdr + b), S j) | None => (i, j, S i, S j) end
+     else (i, j, S i, S j))
   else if j =? 0 then (0, 0, h_hdr, 1)
   else if j <? c_out then (if i <? h_top then (0, j, h_top, S j) else (h_top, j, h_hdr, S j))
   else if j <? c_ann then
@@ -62,6 +69,12 @@ Definition header_drawing : mdraw :=
      md_v1 := c_out; md_v2 := match ht_anns s with [] => None | _ => Some c_ann end;
      md_h1 := h_hdr; md_h2 := None |}.
 
+Definition block_eqb (a b : block) : bool := all2 (all2 N.eqb) a b.
+Definition input_entry (r q : nat) : block := let '(_, i, _, _) := nth r (ht_rules s) ([], [], [], []) in nth q i [].
+(* every rule of a group of merged input entries holds the same block *)
+Definition merged_same : bool :=
+  forallb (fun g => let '(q, a, b) := g in forallb (fun r => block_eqb (input_entry r q) (input_entry a q)) (seq a (S b - a))) (ht_merge s).
+
 Definition hrule_lengths_ok : bool :=
   forallb (fun r => let '(n, i, o, a) := r in (length i =? h_ni) && (length o =? h_no) && (length a =? h_na)) (ht_rules s).
 
@@ -70,7 +83,7 @@ Definition hrule_lengths_ok : bool :=
    a rule, and every rule has one entry per column *)
 Definition wf_htable : bool :=
   wf_mdraw header_drawing && (1 <=? h_ni) && (1 <=? h_no) && (1 <=? h_nr) && hrule_lengths_ok &&
-  (length (ht_ws s) =? c_ann + h_na) && (length (ht_hs s) =? h_hdr + h_nr).
+  (length (ht_ws s) =? c_ann + h_na) && (length (ht_hs s) =? h_hdr + h_nr) && merged_same.
 
 Section Abs.
 Variable code : list N -> N.
